@@ -103,6 +103,18 @@ func checkRing(p [2]int64, ring [][2]int64, l geom.Layout, what string) error {
 	if in := xy.IsPointInRing(l, pc, flat); in != (want != location.Exterior) {
 		return fmt.Errorf("%s: IsPointInRing(%v, p=%v, ring=%v) = %v, exact location %v", what, l, p, ring, in, want)
 	}
+	// a zero ordinate of the query point written as -0 (the same position)
+	if p[0] == 0 || p[1] == 0 {
+		nz := pc.Clone()
+		for d := 0; d < 2; d++ {
+			if nz[d] == 0 {
+				nz[d] = math.Copysign(0, -1)
+			}
+		}
+		if got := xy.LocatePointInRing(l, nz, flat); got != want {
+			return fmt.Errorf("%s: LocatePointInRing with the point's zero ordinates written as -0 (p=%v, ring=%v) = %v, exact %v", what, p, ring, got, want)
+		}
+	}
 	// a query point that is a vertex, handed over as a window of the ring's own array
 	// (what slicing FlatCoords gives; its capacity runs on over the rest of the ring)
 	for k, q := range ring {
